@@ -43,6 +43,9 @@ pub enum Alt {
     Fork(i64),
     UpStart(i64),
     UpLength(i64),
+    /// start -= k, length += k: the claimed new length (start + length, what the signature
+    /// covers) stays the same, only the split between old and new part moves
+    UpShift(i64),
     BlockIndex(i64),
     HashIndex(i64),
     SeekBytes(i64),
@@ -73,6 +76,7 @@ impl Alt {
             Alt::Fork(d) => format!("fork{:+}", d),
             Alt::UpStart(d) => format!("upgrade-start{:+}", d),
             Alt::UpLength(d) => format!("upgrade-length{:+}", d),
+            Alt::UpShift(d) => if *d == i64::MAX { "upgrade-shift-to-0".into() } else { format!("upgrade-shift{:+}", d) },
             Alt::BlockIndex(d) => format!("block-index{:+}", d),
             Alt::HashIndex(d) => format!("hash-index{:+}", d),
             Alt::SeekBytes(d) => format!("seek-bytes{:+}", d),
@@ -214,6 +218,15 @@ pub fn apply(p: &Proof, a: &Alt) -> Option<Proof> {
             let u = q.upgrade.as_mut()?;
             u.length = add(u.length, *d)?;
         }
+        Alt::UpShift(d) => {
+            let u = q.upgrade.as_mut()?;
+            let k = if *d == i64::MAX { u.start as i64 } else { *d };
+            u.start = add(u.start, -k)?;
+            u.length = add(u.length, k)?;
+            if u.length == 0 {
+                return None;
+            }
+        }
         Alt::BlockIndex(d) => {
             let b = q.block.as_mut()?;
             b.index = add(b.index, *d)?;
@@ -330,6 +343,10 @@ pub fn alterations(p: &Proof, r: &mut Rng, bits: usize) -> Vec<Alt> {
         for d in [1i64, -1] {
             v.push(Alt::UpStart(d));
             v.push(Alt::UpLength(d));
+        }
+        // same claimed length, other split point: one and two below, all the way down to 0, one above
+        for d in [1i64, 2, i64::MAX, -1] {
+            v.push(Alt::UpShift(d));
         }
         v.push(Alt::RemoveUpgrade);
     }
